@@ -1,7 +1,8 @@
 #!/usr/bin/env python3
 """seedmatrix.py [-j N] [-all] [-p props] [seed ...]: for every seeded change, apply it to a scratch worktree of /repo,
-run the quick check of the seed's own property and of every claimed property that has functions in a touched package
-(-all: every claimed property) against that worktree (govc -repo <wt>), and record which checks report a VIOLATION.
+check every obligation of every claimed property against that worktree (one `govc -multi` run over the union of
+the properties' functions; a failed obligation counts for every property whose map entry covers its function), and
+record which properties' checks fail. Replays are not run here (bin/check <id> on the patched tree does that).
 Writes /verif/seeded/MATRIX.json. Scratch worktrees and verif copies live under /tmp and are removed."""
 import json, os, subprocess, sys, tempfile, shutil, concurrent.futures as cf
 sys.path.insert(0, os.path.dirname(os.path.abspath(__file__)))
@@ -24,15 +25,17 @@ def run_seed(seed, props):
         for f in ['contracts', 'properties.map.json', 'known_findings.json']:
             src = os.path.join('/verif', f)
             (shutil.copytree if os.path.isdir(src) else shutil.copy)(src, os.path.join(vd, f))
-        own = seed.split('_')[0]
-        todo = props if ALL else [p for p in props if p == own or p in relevant(os.path.join(sd, 'patch.diff'), props, False)]
-        for p in todo:
-            rc, out = sh(['/verif/bin/govc', '-property', p, '-tier', 'quick', '-verif', vd, '-repo', wt])
-            viol = [l for l in out.splitlines() if l.startswith('VIOLATION')]
-            confirmed = [l for l in viol if 'no-failing-input-found' not in l]
-            failed = [l.strip()[:220] for l in out.splitlines() if l.strip().startswith('failed obligation') or l.strip().startswith('translate failure')]
-            res[p] = {'exit': rc, 'violations': len(viol), 'with_replayed_input': len(confirmed), 'first': failed[:3]}
-            if rc not in (0, 1): res[p]['tail'] = out[-600:]
+        import re
+        rc, out = sh(['/verif/bin/govc', '-multi', ','.join(props), '-verif', vd, '-repo', wt])
+        got = False
+        for l in out.splitlines():
+            m = re.match(r'MULTI (C\d\d) violations=(\d+) ?(.*)', l)
+            if m:
+                got = True
+                n = int(m.group(2))
+                res[m.group(1)] = {'exit': 1 if n else 0, 'violations': n, 'first': [m.group(3)[:300]] if n else []}
+        if not got:
+            res['run'] = {'exit': rc if rc else 2, 'tail': out[-600:]}
     finally:
         sh(['git', '-C', '/repo', 'worktree', 'remove', '--force', wt])
         shutil.rmtree(wt, ignore_errors=True); shutil.rmtree(vd, ignore_errors=True)
